@@ -125,7 +125,7 @@ class StubRng:
         return low + self.frac * (high - low)
 
     def choice(self, a, size=None):
-        a = list(a)
+        a = list(range(int(a))) if isinstance(a, (int, np.integer)) else list(a)  # numpy semantics: an int means arange
         self.asked.append(("choice", tuple(a), size))
         return np.asarray([a[self.choice_answer % len(a)]])
 
